@@ -75,7 +75,7 @@ pub fn profile(prop: &str) -> Option<Profile> {
             prop: "C05",
             name: "revocation",
             ops: (30, 55),
-            w: Weights { rekey: 8, prune: 6, del_attr: 2, del_dim: 1, update: 3, keygen: 5, refresh: 8, encaps: 8, matrix: 4, ..z },
+            w: Weights { rekey: 8, prune: 6, add_attr: 2, add_dim: 1, del_attr: 3, del_dim: 1, update: 3, keygen: 5, refresh: 8, encaps: 8, matrix: 4, ..z },
             shadow_refresh: true,
             ..base
         },
@@ -84,8 +84,8 @@ pub fn profile(prop: &str) -> Option<Profile> {
             name: "disable",
             ops: (25, 45),
             w: Weights {
-                disable: 5, update: 6, rekey: 6, prune: 3, keygen: 4, refresh: 5, encaps: 10, roundtrip: 4,
-                derive_mpk: 4, matrix: 3, ..z
+                disable: 5, add_attr: 3, add_dim: 1, update: 6, rekey: 6, prune: 3, keygen: 4, refresh: 5, encaps: 10,
+                roundtrip: 4, derive_mpk: 4, matrix: 3, ..z
             },
             omega_targets: true,
             max_encs: 12,
